@@ -19,6 +19,7 @@ type Case struct {
 	S    string  `json:"s"`
 	D    string  `json:"d"`
 	Amps []int64 `json:"amps"`
+	Pad  int     `json:"pad,omitempty"` // the amplitudes are repeated cyclically up to this buffer length
 }
 
 var Pairs = convtab.Select("SignedAsFloat", "UnsignedAsFloat")
@@ -149,7 +150,13 @@ func Check(c *Case) (res kit.Result) {
 	}
 	d := e.S.Bits
 	lo, hi := numkit.Lo(d), numkit.Hi(d)
-	in := append([]int64{lo, 0, hi}, c.Amps...)
+	if c.Pad < 0 || c.Pad > 1<<20 {
+		return
+	}
+	in := kit.PadInts(append([]int64{lo, 0, hi}, c.Amps...), c.Pad)
+	if c.Pad > len(c.Amps)+3 {
+		res.Class("paddedToLongBuffer")
+	}
 	for _, a := range in {
 		if a < lo || a > hi {
 			return kit.Result{}
@@ -188,6 +195,7 @@ func FP(c *Case) uint64 {
 	h.Str(c.S)
 	h.Str(c.D)
 	h.Int(len(c.Amps))
+	h.Int(c.Pad)
 	for _, a := range c.Amps {
 		h.U64(uint64(a))
 	}
@@ -202,6 +210,7 @@ func Gen(t *rapid.T) *Case {
 		e = Pairs[rapid.IntRange(0, len(Pairs)-1).Draw(t, "inst2")]
 	}
 	c := &Case{S: e.S.Name, D: e.D.Name}
+	c.Pad = kit.GenPad(t)
 	n := rapid.IntRange(1, 24).Draw(t, "n")
 	base := kit.GenAmp(t, e.S.Bits, BAmps[e.S.Bits])
 	for i := 0; i < n; i++ {
